@@ -479,6 +479,7 @@ type Handler struct {
 	Held   chan string   // signalled when a callback is being held
 	resume chan struct{} // released by Resume
 	Trace  *Trace
+	heldAt map[string]time.Time
 }
 
 func NewHandler() *Handler {
@@ -491,9 +492,22 @@ func (h *Handler) cb(name string) {
 	h.mu.Unlock()
 	h.Trace.Add(TraceEv{Kind: "cb", Name: name})
 	if hold {
+		h.mu.Lock()
+		if h.heldAt == nil {
+			h.heldAt = map[string]time.Time{}
+		}
+		h.heldAt[name] = time.Now()
+		h.mu.Unlock()
 		h.Held <- name
 		<-h.resume
 	}
+}
+
+// HeldAt says when the callback called name was last held.
+func (h *Handler) HeldAt(name string) time.Time {
+	h.mu.Lock()
+	defer h.mu.Unlock()
+	return h.heldAt[name]
 }
 func (h *Handler) SetHold(name string, on bool) {
 	h.mu.Lock()
